@@ -23,6 +23,9 @@ func (rc *ruleCtx) pos(n ast.Node) string {
 		return "variant"
 	}
 	p := rc.x.In.Fset.Position(n.Pos())
+	if rc.x.In.Origin == "Y" {
+		return fmt.Sprintf("%s (regenerated, line %d of the generated file)", rc.x.In.Key, p.Line)
+	}
 	if rc.x.In.Origin == "X" {
 		return fmt.Sprintf("templates(%v) rendered line %d", rc.x.In.Anchors, p.Line)
 	}
